@@ -8,6 +8,7 @@ import hashlib, hmac, struct
 from nintendo.nex import kerberos, common
 import nexval_gen as G
 import c16_seq
+import c16_shape
 
 LEVEL = "proof"
 
@@ -106,6 +107,9 @@ def run(ctx):
                 "with keys alternating A,B,A,B: each call must draw exactly the randomness the model says and equal the model/reference for the randomness of that call; every single-bit flip and every truncation of sampled ciphertexts and wrong keys; "
                 "ONE KeyDerivationOld/New object (defaults and small parameters) for 6..31 derivations in a row (pid % pid_count descending/ascending/repeating, passwords interleaved, a sibling object in between) compared with a fresh object, the reference and the model after every call; "
                 "ONE settings object through ticket call sequences in which refused calls (1-bit flip, truncation, wrong key, wrong session-key size, id/time out of range) are followed by genuine ones: settings read the same, earlier tickets still open, new ciphertexts equal the reference; "
+                "CIPHERTEXT-TARGETED tickets (c16_shape.py): RC4 is an xor with a key stream, so field values (time stamp, ids, session-key bytes, buffer bytes; for version 1 also the pinned ticket key) are CHOSEN such that the "
+                "ciphertext carries chosen u32 words (0, 16, 32, len-k) at offsets 0,4,8,12,16,20,24,28, pairs at 0 and 20 (incl. the exact layout of the other ticket version: 16 at 0, len-24 at 20) and two-buffer chains tiling the ciphertext, "
+                "for server tickets v0/v1 and client tickets x key size 16/32 x pid 4/8 x several keys: issued = reference, decrypts under its own key and version setting to its fields; "
                 "oracles on the real code: round trip of all fields, equality with independent Python references, rejection of every tampered ciphertext. "
                 "distinct non-trivial = distinct operation lines")
     ctx.assumptions.append("HMAC-MD5 unforgeability (a party without the key cannot produce an accepted tag): cryptographic assumption, not a Lean hypothesis; "
@@ -377,6 +381,8 @@ def run(ctx):
         ctx.extra["same_key_sequence_operations"] = seq_ops
         # ONE settings object through sequences in which some calls are refused (damaged / wrong-key tickets, wrong sizes)
         c16_seq.settings_sequences(ctx, B, violation, pinned, ref_envelope, wrap, hmac_equivalent, other_keys, gen_key, quick)
+        # ciphertext-targeted tickets: field values (and, for version 1, the ticket key) chosen such that chosen ciphertext positions carry chosen words
+        c16_shape.shape_tickets(ctx, B, violation, ref_rc4, ref_envelope, wrap, quick)
         # every single-bit flip and truncation of sampled tickets
         for kind, (ks, ps, ver), key, ct in tick_src[: (24 if quick else 160)]:
             S = G.make_settings(pid_size=ps, key_size=ks, ticket_version=ver)
